@@ -22,8 +22,12 @@ class Dim:
 
 
 class Space:
-    def __init__(self, name, dims, build, near=None, prune=None):
+    def __init__(self, name, dims, build, near=None, prune=None, klass=None, max_dev=None, spec=None, accum=False):
         self.name = name
+        self.accum = accum   # the rewrite re-associates a reduction: compare against the tensor's magnitude
+        self.spec = spec     # (params, rule) -> callable(feed) -> [outputs] | None : numpy second opinion
+        self.max_dev = max_dev or {}   # tier -> max number of non-default cost-1 dims (tighter than the global bound)
+        self.klass = klass   # (non-default minimal params, minimal params, rule) -> class string | None
         self._dims = dims
         self.build = build
         self.near = near
@@ -151,7 +155,7 @@ def is_float(dt):
 
 
 def _load():
-    from vf.props import c05_s1, c05_s2, c05_s3, c05_s4  # noqa: F401
+    from vf.props import c05_s1, c05_s2, c05_s3, c05_s4, c05_s5  # noqa: F401
 
 
 _load()
